@@ -3,10 +3,12 @@
 package c16
 
 import (
+	"fmt"
 	"math/big"
 	"math/rand/v2"
 	"os"
 	"strings"
+	"time"
 
 	"github.com/consensys/gnark-crypto/ecc"
 
@@ -18,7 +20,7 @@ import (
 var emuQuickQuota = map[string]map[string]int{
 	"secp256k1": {"AddUnified": 14, "Add": 8, "Neg": 2, "AssertIsOnCurve": 5, "ScalarMul": 34, "ScalarMulBase": 12, "JointScalarMulBase": 12, "MultiScalarMul": 6, "MultiScalarMulFold": 4},
 	"P-256":     {"AddUnified": 14, "Add": 8, "Neg": 2, "AssertIsOnCurve": 5, "ScalarMul": 30, "ScalarMulBase": 12, "JointScalarMulBase": 10, "MultiScalarMul": 6, "MultiScalarMulFold": 4},
-	"BN254":     {"AddUnified": 14, "Add": 8, "Neg": 2, "AssertIsOnCurve": 5, "ScalarMul": 30, "ScalarMulBase": 10, "JointScalarMulBase": 8, "MultiScalarMul": 5, "MultiScalarMulFold": 3},
+	"BN254":     {"AddUnified": 14, "Add": 8, "Neg": 2, "AssertIsOnCurve": 5, "ScalarMul": 30, "ScalarMulBase": 10, "JointScalarMulBase": 8, "MultiScalarMul": 5, "MultiScalarMulFold": 3, "ECAdd": 8, "ECMul": 12},
 	"P-384":     {"AddUnified": 8, "Add": 4, "Neg": 1, "AssertIsOnCurve": 3, "ScalarMul": 12, "ScalarMulBase": 5, "JointScalarMulBase": 4, "MultiScalarMul": 2, "MultiScalarMulFold": 2},
 	"BLS12-381": {"AddUnified": 8, "Add": 4, "Neg": 1, "AssertIsOnCurve": 3, "ScalarMul": 12, "ScalarMulBase": 5, "JointScalarMulBase": 4, "MultiScalarMul": 2, "MultiScalarMulFold": 2},
 	"BW6-761":   {"AddUnified": 6, "Add": 3, "Neg": 1, "AssertIsOnCurve": 2, "ScalarMul": 6, "ScalarMulBase": 2, "JointScalarMulBase": 2, "MultiScalarMul": 1, "MultiScalarMulFold": 1},
@@ -26,7 +28,7 @@ var emuQuickQuota = map[string]map[string]int{
 }
 
 // rough per-case cost in ms by op (4-limb curve), used only for scheduling order
-var emuCost = map[string]int{"AddUnified": 10, "Add": 5, "Neg": 2, "AssertIsOnCurve": 5, "ScalarMul": 250, "ScalarMulBase": 200, "JointScalarMulBase": 400, "MultiScalarMul": 700, "MultiScalarMulFold": 700}
+var emuCost = map[string]int{"ECAdd": 10, "ECMul": 250, "Double": 5, "DoubleAndAdd": 5, "Curve.ScalarMul": 100, "AddUnified": 10, "Add": 5, "Neg": 2, "AssertIsOnCurve": 5, "ScalarMul": 250, "ScalarMulBase": 200, "JointScalarMulBase": 400, "MultiScalarMul": 700, "MultiScalarMulFold": 700}
 
 func curveWeight(name string) int {
 	switch name {
@@ -42,6 +44,10 @@ func curveWeight(name string) int {
 // property statement), whatever the seed.
 func alwaysKeep(c *emuCase) bool {
 	switch c.Op {
+	case "ECMul":
+		return c.Class == "s=0,P=R1" || c.Class == "s=r-1,P=R1" || c.Class == "s=1,P=G" || c.Class == "s=0,P=inf" || c.Class == "s=random,P=inf" || c.Class == "s=r-2,P=R1"
+	case "ECAdd":
+		return c.Class == "inf+inf" || c.Class == "G+G" || c.Class == "G+-G"
 	case "ScalarMul":
 		for _, s := range []string{"s=0,P=R1", "s=1,P=R1", "s=r-1,P=R1", "s=r,P=R1", "s=r+1,P=R1", "s=cap,P=R1", "s=random,P=inf", "s=0,P=inf", "s=glv:+1*lambda,P=G", "s=glv:+1*lambda^2,P=G", "s=1,P=G", "s=2,P=G"} {
 			if c.Class == s {
@@ -58,15 +64,22 @@ func alwaysKeep(c *emuCase) bool {
 	return false
 }
 
-func emuNatives(r *vcore.Run) []*big.Int {
+func emuNatives() []*big.Int {
 	// the gadgets run over different SNARK fields; most cases use BN254
 	return []*big.Int{ecc.BN254.ScalarField(), ecc.BLS12_377.ScalarField(), ecc.BW6_761.ScalarField()}
 }
 
-func emuJobs(r *vcore.Run) []job {
-	var jobs []job
+// emuPlan is the case list of the emulated family plus the hint inputs it implies.
+type emuPlan struct {
+	descs map[string]*emuCurveDesc
+	cases []*emuCase
+}
+
+func planEmu(r *vcore.Run) *emuPlan {
+	pl := &emuPlan{descs: map[string]*emuCurveDesc{}}
 	sel := os.Getenv("VERIF_C16_CURVES")
 	for _, d := range emuCurves() {
+		pl.descs[d.c.Name] = d
 		if sel != "" && !strings.Contains(","+sel+",", ","+d.c.Name+",") {
 			continue
 		}
@@ -74,15 +87,15 @@ func emuJobs(r *vcore.Run) []job {
 			// STARK curve is not in the property's list; thorough only
 			continue
 		}
-		d := d
 		rng := r.Rand("emu/" + d.c.Name)
-		natives := emuNatives(r)
+		natives := emuNatives()
 		cases := d.genEmuCases(rng, nativeBN254)
 		if r.Quick() {
 			cases = sampleEmu(rng, cases, emuQuickQuota[d.c.Name])
 		} else if os.Getenv("VERIF_C16_ALL") == "" {
-			// thorough: the complete directed list, plus a second list whose
-			// random members come from another stream
+			// thorough: the complete directed list (sampled for the two most
+			// expensive curves), plus a second list whose random members come
+			// from another stream
 			rng2 := r.Rand("emu2/" + d.c.Name)
 			extra := d.genEmuCases(rng2, nativeBN254)
 			q := map[string]int{}
@@ -101,24 +114,104 @@ func emuJobs(r *vcore.Run) []job {
 				c.Native = natives[1+(i/7)%2]
 			}
 		}
-		for _, c := range cases {
-			c := c
-			jobs = append(jobs, job{family: "emu", cost: emuCost[c.Op] * curveWeight(d.c.Name), run: func() {
-				o, ok := d.runEmu(c)
-				if !ok {
-					r.Inconclusive("emu:scalar-not-representable")
-					return
+		pl.cases = append(pl.cases, cases...)
+	}
+	return pl
+}
+
+// hintInputs lists the decomposition-hint calls a case will make (read off the
+// gadget source: which hint each method uses and on which value).
+func (pl *emuPlan) hintInputs(c *emuCase) []hintProbe {
+	d := pl.descs[c.Curve]
+	r := d.c.R
+	nl := d.capBit / 64
+	var out []hintProbe
+	mk := func(h string, nout int, class string, in ...*big.Int) {
+		out = append(out, hintProbe{Hint: h, Curve: c.Curve, Class: class, Mod: c.Native, Emulated: true, EmuMod: r, NbLimbs: nl, Inputs: in, NbOut: nout})
+	}
+	isMul := false
+	switch c.Op {
+	case "ScalarMul", "ScalarMulBase", "JointScalarMulBase", "MultiScalarMul", "MultiScalarMulFold", "ECMul":
+		isMul = true
+	}
+	if !isMul {
+		return nil
+	}
+	rm1 := new(big.Int).Sub(r, big.NewInt(1))
+	for i, k := range c.Ks {
+		km := new(big.Int).Mod(k, r)
+		cls := fmt.Sprintf("scalar#%d-of:%s", i, c.Class)
+		if d.glv {
+			eis := c.Op == "ScalarMul" || c.Op == "ECMul" || c.Op == "ScalarMulBase" || c.Op == "MultiScalarMulFold" || (c.Op == "JointScalarMulBase" && c.Complete) ||
+				(c.Op == "MultiScalarMul" && (c.Complete || len(c.Ks)%2 == 1))
+			dec := (c.Op == "JointScalarMulBase" && !c.Complete) || (c.Op == "MultiScalarMul" && !c.Complete && len(c.Ks) >= 2)
+			if eis {
+				v := k
+				if c.Complete && (km.Sign() == 0 || km.Cmp(rm1) == 0) {
+					v = big.NewInt(1)
 				}
-				judgeEmu(r, d, c, o, func() emuOutcome {
-					seqMu.Lock()
-					defer seqMu.Unlock()
-					o2, _ := d.runEmu(c)
-					return o2
-				})
-			}})
+				mk("sw_emulated.halfGCDEisenstein", 4, cls, v, d.lambda)
+			}
+			if dec {
+				mk("sw_emulated.decomposeScalarG1Subscalars", 2, cls, k, d.lambda)
+			}
+		} else {
+			v := k
+			if c.Complete && km.Sign() == 0 {
+				v = big.NewInt(1)
+			}
+			mk("sw_emulated.halfGCD", 2, cls, v)
 		}
 	}
-	return jobs
+	return out
+}
+
+func probeKey(p hintProbe) string {
+	s := p.Hint + "|" + p.Curve
+	for _, v := range p.Inputs {
+		s += "|" + v.String()
+	}
+	return s
+}
+
+// emuTasks turns the plan into pool tasks. stuck holds the probe keys the
+// liveness screen flagged; cases depending on them are not executed except for
+// a small sample that runs under a short watchdog to confirm the hang in the
+// gadget itself.
+func (pl *emuPlan) tasks(r *vcore.Run, jd *emuJudge, stuck map[string]bool, hangSeen func(c *emuCase, confirmed bool)) []task {
+	var ts []task
+	confirmBudget := r.Pick(3, 10)
+	for _, c := range pl.cases {
+		c := c
+		d := pl.descs[c.Curve]
+		predicted := false
+		for _, p := range pl.hintInputs(c) {
+			if stuck[probeKey(p)] {
+				predicted = true
+			}
+		}
+		t := task{fam: "emu", data: c, cost: emuCost[c.Op] * curveWeight(d.c.Name)}
+		if predicted {
+			r.Count("emu.cases-with-hint-nontermination-predicted", 1)
+			if confirmBudget == 0 || curveWeight(d.c.Name) > 1 {
+				r.Eval("emu|"+c.key(), true)
+				r.Count("emu.skipped(hint-nontermination-predicted-by-screen)", 1)
+				continue
+			}
+			confirmBudget--
+			t.watchdog = 25 * time.Second
+			t.cost = 1 << 30 // start these first
+			t.done = func(o outcome) {
+				r.Eval("emu|"+c.key(), true)
+				hangSeen(c, o.Hang)
+			}
+			ts = append(ts, t)
+			continue
+		}
+		t.done = func(o outcome) { jd.judge(d, c, o) }
+		ts = append(ts, t)
+	}
+	return ts
 }
 
 // sampleEmu keeps the always-keep classes and fills each op's quota with a
@@ -158,7 +251,7 @@ func sampleEmu(rng *rand.Rand, cases []*emuCase, quota map[string]int) []*emuCas
 
 func hasBothModes(op string) bool {
 	switch op {
-	case "AddUnified", "Add", "Neg", "AssertIsOnCurve":
+	case "AddUnified", "Add", "Neg", "AssertIsOnCurve", "ECAdd":
 		return false
 	}
 	return true
